@@ -36,6 +36,10 @@ def configs(tier, seed):
 def prepare(cfg, seed):
     cfg = dict(cfg)
     keys, ng = H.hh_alphabet(cfg["args"], seed)
+    if cfg.get("keep"):
+        # a small sub-alphabet (by role: 0 stem, 1 stem+NUL, 2 empty, 3 all-NUL, 4 long,
+        # 5 other, 6 stem+'z') so that a deeper history fits the budget
+        keys = [keys[i] for i in cfg["keep"] if i < len(keys)]
     cfg["keys"] = keys
     cfg.setdefault("ngrams", ng)
     return cfg
